@@ -1,9 +1,10 @@
 package main
 
 import (
-	"strings"
+	"go/token"
 	"go/types"
 	"golang.org/x/tools/go/ssa"
+	"strings"
 )
 
 // C17 Transactions are all-or-nothing.
@@ -134,6 +135,8 @@ func runC17(w *World, r *Report) {
 	c17ErrorConditions(w, r, h, begin)
 	c17CommitFailureStatus(w, r, h)
 	c17OperationStatuses(w, r, h)
+	c17NoTransactionControl(w, r)
+	c17ConditionStatus(w, r, h, begin)
 
 	bad = pathAvoiding(begin, cuts, isCommit, isOkReturn)
 	if bad != nil {
@@ -537,6 +540,183 @@ func c17PairedOnEveryEdge(status, err ssa.Value, at *ssa.BasicBlock, depth int) 
 // variable that lives in a cell (the functions defer rows.Close()), which the
 // edge-wise pairing cannot follow. Read by hand.
 var c17StatusOK = map[string]string{
-	"scripting.readTxRowData|status returned with an error": "status starts at 200 and every branch that leaves err non-nil also sets status: query failure and scan failure -> dberrors.ExecStatus, no row with the empty-result flag -> 404, more than one row -> 400; the remaining branch logs and leaves err nil",
+	"scripting.readTxRowData|status returned with an error":        "status starts at 200 and every branch that leaves err non-nil also sets status: query failure and scan failure -> dberrors.ExecStatus, no row with the empty-result flag -> 404, more than one row -> 400; the remaining branch logs and leaves err nil",
 	"scripting.readTxRowResultSet|status returned with an error#2": "status starts at 200; query failure and scan failure set dberrors.ExecStatus(err); the empty-result case returns its own 404 earlier; otherwise err is nil",
+}
+
+// c17NoTransactionControl: R-C17-6. SQL text in a script must not begin, end or
+// split the transaction the handler wraps the script in.
+func c17NoTransactionControl(w *World, r *Report) {
+	r.Rule("R-C17-6", "the SQL tasks refuse transaction control: in scripting.authorizeAndClassifySQL no success return is reachable once the 'not transaction control' edges (by parsed kind, and by first word for unparsed text) are removed; the kind predicate is true for BEGIN, COMMIT, ROLLBACK, SAVEPOINT and RELEASE", 2)
+
+	sc := w.pkg("internal/server/tables/scripting")
+	sp := w.pkg("internal/sqlparse")
+
+	fn := w.ssaFunc(sc, "authorizeAndClassifySQL")
+	if fn == nil || sp == nil {
+		r.Anchor("R-C17-6", "scripting.authorizeAndClassifySQL")
+
+		return
+	}
+
+	key := "scripting.authorizeAndClassifySQL|refuses transaction control"
+
+	nKind, nText := 0, 0
+
+	cuts := cutEdges(fn, func(f Fact) bool {
+		if f.Kind != "false" {
+			return false
+		}
+
+		c, ok := f.V.(*ssa.Call)
+		if !ok {
+			return false
+		}
+
+		switch {
+		case strings.HasSuffix(callID(c.Common()), "scripting.isTransactionControlKind"):
+			nKind++
+
+			return true
+		case strings.HasSuffix(callID(c.Common()), "scripting.isTransactionControlText"):
+			nText++
+
+			return true
+		}
+
+		return false
+	})
+
+	bad := ""
+
+	for b := range reach(fn.Blocks[0], cuts, nil) {
+		if ret, ok := b.Instrs[len(b.Instrs)-1].(*ssa.Return); ok {
+			res := retResults(ret)
+			if isNilConst(res[len(res)-1]) {
+				bad = w.pos(ret.Pos())
+			}
+		}
+	}
+
+	switch {
+	case nKind == 0:
+		r.Violate("R-C17-6", key, w.pos(fn.Pos()), "the statement kind is never tested for transaction control: a COMMIT or ROLLBACK in a script's SQL text ends the transaction the handler began, what follows runs outside it, and a later failure leaves the earlier operations applied")
+	case nText == 0:
+		r.Violate("R-C17-6", key, w.pos(fn.Pos()), "text the parser cannot read (run as it is for an administrator) is not tested for transaction control")
+	case bad != "":
+		r.Violate("R-C17-6", key, bad, "a success return is reachable for a transaction-control statement")
+	default:
+		r.Discharge("R-C17-6", key, w.pos(fn.Pos()), "every success return lies behind the false edge of the kind test (parsed text) or of the first-word test (unparsed text)")
+	}
+
+	// the predicate covers the five kinds
+	key2 := "scripting.isTransactionControlKind|kinds covered"
+
+	fd := w.funcDecl(sc, "isTransactionControlKind")
+	if fd == nil {
+		r.Violate("R-C17-6", key2, "", "no predicate isTransactionControlKind in package scripting")
+
+		return
+	}
+
+	trueSet := kindPredicateTrueSet(sc.TypesInfo, fd)
+
+	var missing []string
+
+	for _, name := range []string{"StmtBegin", "StmtCommit", "StmtRollback", "StmtSavepoint", "StmtRelease"} {
+		if v := lookupConstInt(sp, name); v == nil || !trueSet[sprintInt(int(*v))] {
+			missing = append(missing, name)
+		}
+	}
+
+	if len(missing) > 0 {
+		r.Violate("R-C17-6", key2, w.pos(fd.Pos()), "not treated as transaction control: "+strings.Join(missing, ", "))
+	} else {
+		r.Discharge("R-C17-6", key2, w.pos(fd.Pos()), "BEGIN, COMMIT, ROLLBACK, SAVEPOINT, RELEASE")
+	}
+}
+
+// c17ConditionStatus: R-C17-7. A status taken from the request for the response
+// that follows a rollback is used only when it is a failure status.
+func c17ConditionStatus(w *World, r *Report, h *ssa.Function, begin *ssa.Call) {
+	r.Rule("R-C17-7", "in the @transaction handler every error response that follows a rollback carries a failure status: a constant of 400 or more, a classifier or operation status, or a status named by the request only behind a comparison that makes it 400 or more", 1)
+
+	n := 0
+
+	allInstrs(h, func(in ssa.Instruction) {
+		c := callTo(in, "internal/util.ErrorResponse")
+		if c == nil || !instrReachableFrom(begin, in) {
+			return
+		}
+
+		st := resolveLocal(c.Args[3])
+
+		phi, isPhi := st.(*ssa.Phi)
+		if !isPhi {
+			return // judged by R-C17-4 / R-C17-5 shapes (constants, operation statuses)
+		}
+
+		// only the responses whose status can come from the request itself
+		named := false
+
+		for _, e := range phi.Edges {
+			if isFieldNamed(resolveLocal(e), "Status") {
+				named = true
+			}
+		}
+
+		if !named {
+			return
+		}
+
+		n++
+
+		key := "scripting.Handler|status chosen for a rolled-back script"
+		if n > 1 {
+			key += "#" + sprintInt(n)
+		}
+
+		bad := ""
+
+		for i, e := range phi.Edges {
+			if ok, _ := c17FailureStatus(e, 0); ok {
+				continue
+			}
+
+			// a member of the request (errorCondition.Status): needs a >= 400 guard on the way in
+			guarded := false
+
+			for _, f := range append(dominatingFacts(phi.Block().Preds[i]), edgeFactsInto(phi.Block().Preds[i], phi.Block())...) {
+				if f.Kind != "cmp" {
+					continue
+				}
+
+				if k, isC := constInt(f.Y); isC && (sameFieldLoad(f.X, e) || f.X == e) {
+					if (f.Op == token.GEQ && k >= 400) || (f.Op == token.GTR && k >= 399) {
+						guarded = true
+					}
+				}
+			}
+
+			if !guarded {
+				bad = c40Describe(resolveLocal(e))
+			}
+		}
+
+		if bad != "" {
+			r.Violate("R-C17-7", key, w.pos(in.Pos()), "the status of this response can be "+bad+", a value the request supplies, without a test that it is a failure status: the transaction is rolled back and the client is told 200")
+		} else {
+			r.Discharge("R-C17-7", key, w.pos(in.Pos()), "every alternative is a failure status, or a request-supplied one behind a >= 400 comparison")
+		}
+	})
+}
+
+// edgeFactsInto: the facts the branch at the end of pred establishes on its edge to succ.
+func edgeFactsInto(pred, succ *ssa.BasicBlock) []Fact {
+	ifi, ok := pred.Instrs[len(pred.Instrs)-1].(*ssa.If)
+	if !ok {
+		return nil
+	}
+
+	return withCellFacts(edgeFacts(ifi.Cond, pred.Succs[0] == succ))
 }
